@@ -460,6 +460,11 @@ class FuncTypes:
                     if m is not None:
                         return [m], True
                 return [], True
+            if isinstance(f.value, ast.Name) and f.value.id in r.classes and r.classes[f.value.id].enum_members is None \
+                    and self.lookup(f.value.id, f.value) is None:
+                # unbound call through the class: `BaseTask.method(obj, ...)`
+                m = r.lookup_method(f.value.id, f.attr)
+                return ([m] if m else []), True
             b = self.type_of(f.value)
             if b and b[0] == "obj":
                 m = r.lookup_method(b[1], f.attr)
